@@ -21,5 +21,15 @@ func init() {
 		skelTarget{Name: "Manager.HandleScheduleEvent", File: "pkg/hook/hook_manager.go", Recv: "Manager", Func: "HandleScheduleEvent",
 			Fields: []string{},
 			Calls:  []string{"GetHooksInOrder", "GetHook", "CanHandleScheduleEvent", "HandleScheduleEvent", "createTaskFn"}},
+		// sixth wave: the loaders of the `schedule:` section (Model/Schedule.lean convertV0 / convertV1 / mergeArrays)
+		skelTarget{Name: "C11.HookConfigV0.ConvertSchedule", File: "pkg/hook/config/config_v0.go", Recv: "HookConfigV0", Func: "ConvertSchedule",
+			Fields: []string{"BindingName", "AllowFailure", "ScheduleEntry", "Queue", "Group", "IncludeSnapshotsFrom", "Name", "Crontab"},
+			Calls:  []string{"ScheduleID", "ConvertSchedule"}},
+		skelTarget{Name: "C11.HookConfigV1.ConvertSchedule", File: "pkg/hook/config/config_v1.go", Recv: "HookConfigV1", Func: "ConvertSchedule",
+			Fields: []string{"BindingName", "AllowFailure", "ScheduleEntry", "Queue", "Group", "IncludeSnapshotsFrom", "Name", "Crontab"},
+			Calls:  []string{"ScheduleID", "ConvertSchedule"}},
+		skelTarget{Name: "C11.MergeArrays", File: "pkg/hook/config/util.go", Func: "MergeArrays",
+			Fields: []string{},
+			Calls:  []string{"append", "make"}},
 	)
 }
